@@ -54,18 +54,7 @@ fn starts_with(name: &[u8], p: &[u8]) -> bool {
     true
 }
 
-fn any_name(buf: &mut [u8; MAXLEN]) -> &[u8] {
-    *buf = kani::any();
-    let len: usize = kani::any();
-    kani::assume(len <= MAXLEN);
-    &buf[..len]
-}
-
-#[kani::proof]
-#[kani::unwind(18)]
-fn c30_priority_matches_gnu_ld_key_for_every_name() {
-    let mut buf = [0u8; MAXLEN];
-    let name = any_name(&mut buf);
+fn check(name: &[u8]) {
     let got = init_fini_priority(name);
     let (defined, want) = spec_priority(name);
     if !defined {
@@ -83,6 +72,47 @@ fn c30_priority_matches_gnu_ld_key_for_every_name() {
     }
     // the Platform hook is the same function
     assert!(<Elf as crate::platform::Platform>::init_section_priority(name) == got);
+}
+
+const SUFFIX: usize = 6;
+
+// every name of the form  <family> ++ <up to 6 arbitrary bytes>  (covers the bare family names,
+// ".N" suffixes up to 5 digits incl. 65535 and beyond, and garbage after the family name)
+#[kani::proof]
+#[kani::unwind(19)]
+fn c30_priority_matches_gnu_ld_key_for_every_name() {
+    const FAMILIES: [&[u8]; 4] = [b".init_array", b".fini_array", b".ctors", b".dtors"];
+    let k: usize = kani::any();
+    kani::assume(k < 4);
+    let fam = FAMILIES[k];
+    let tail: [u8; SUFFIX] = kani::any();
+    let tail_len: usize = kani::any();
+    kani::assume(tail_len <= SUFFIX);
+    let mut buf = [0u8; MAXLEN + 2];
+    let mut i = 0;
+    while i < fam.len() {
+        buf[i] = fam[i];
+        i += 1;
+    }
+    let mut j = 0;
+    while j < SUFFIX {
+        if j < tail_len {
+            buf[fam.len() + j] = tail[j];
+        }
+        j += 1;
+    }
+    check(&buf[..fam.len() + tail_len]);
+}
+
+// every name of at most 9 bytes (includes every .ctors*/.dtors* name up to 9 bytes and every
+// name outside the four families, e.g. one differing from a family name in a single byte)
+#[kani::proof]
+#[kani::unwind(19)]
+fn c30_short_names_get_a_priority_only_in_the_four_families() {
+    let buf: [u8; 9] = kani::any();
+    let len: usize = kani::any();
+    kani::assume(len <= 9);
+    check(&buf[..len]);
 }
 
 // Ordering consequence, stated directly: for two suffixed sections of the same family with
@@ -126,11 +156,10 @@ fn c30_parse_suffix_rejects_non_digits_and_empty() {
 }
 
 #[kani::proof]
-#[kani::unwind(18)]
+#[kani::unwind(19)]
 fn c30_canary_suffixed_names_reachable() {
-    let mut buf = [0u8; MAXLEN];
-    let name = any_name(&mut buf);
-    let got = init_fini_priority(name);
-    // must fail: .init_array.101 exists in the domain
-    assert!(got != Some(101), "canary");
+    let buf: [u8; 9] = kani::any();
+    let got = init_fini_priority(&buf[..]);
+    // must fail: ".ctors.12" exists in the domain
+    assert!(got != Some(65535 - 12), "canary");
 }
